@@ -224,7 +224,8 @@ def sampled(draw):
     n = draw(st.integers(1, 7))
     shape = draw(st.sampled_from(shapes(min(n, 6))))
     ns = nodes(shape)
-    pool = ["a", "b", "c", "d", "e", "default", "root", "a", "do", "x_1"]
+    # (entrypoint names may be up to 31 characters long)
+    pool = ["a", "b", "c", "d", "e", "default", "root", "a", "do", "x_1", "e" * 31, "f" * 30, "transfer_ownership_of_the_token"]
     names, tnames = {}, {}
     for p in ns:
         if draw(st.integers(0, 2)) == 0:
